@@ -58,7 +58,9 @@ func (o arOutcome) String() string { return fmt.Sprintf("err=%v members=%v", o.e
 // iterateAr runs LoadAr+Next to the end under the monitors.
 func c15IterateAr(c *core.C, raw []byte, report bool, sized bool) (arOutcome, bool) {
 	var out arOutcome
-	cr := &core.CountingReaderAt{In: bytes.NewReader(raw), HeaderLen: 60, Size: int64(len(raw)), Limit: len(raw)/60 + 1}
+	// the step bound proper is on Next() calls (loop below); the read limiter only cuts a loop
+	// INSIDE one call and is generous, so that an implementation reading a header twice is not flagged
+	cr := &core.CountingReaderAt{In: bytes.NewReader(raw), HeaderLen: 60, Size: int64(len(raw)), Limit: 4*(len(raw)/60+1) + 16}
 	var src io.ReaderAt = cr
 	if sized {
 		src = core.SizedCountingReaderAt{CountingReaderAt: cr}
@@ -81,7 +83,7 @@ func c15IterateAr(c *core.C, raw []byte, report bool, sized bool) (arOutcome, bo
 		cr.Track = false
 		if cr.Exceeded {
 			if report {
-				c.Failf("iteration did not finish within %d header reads for %d input bytes (one step per 60 bytes): header reads at %v", cr.Limit, len(raw), tailInts(cr.Headers, 8))
+				c.Failf("iteration did not finish: more than %d header reads for %d input bytes (one step per 60 bytes allows %d): header reads at %v", cr.Limit, len(raw), len(raw)/60+1, tailInts(cr.Headers, 8))
 			}
 			out.err = true
 			return out, true
@@ -133,7 +135,7 @@ func c15IterateAr(c *core.C, raw []byte, report bool, sized bool) (arOutcome, bo
 		out.members = append(out.members, fmt.Sprintf("%s/%d/%d", e.Name, e.Size, delivered))
 	}
 	if report {
-		c.Failf("iteration returned more members than the input can hold")
+		c.Failf("iteration did not end within %d steps for %d input bytes (at most one step per 60 bytes)", len(raw)/60+3, len(raw))
 	}
 	return out, true
 }
@@ -186,14 +188,14 @@ func (p c15) debCase(c *core.C, raw []byte) {
 	}
 	sizedToggle := false
 	run := func(report bool) string {
-		cr := &core.CountingReaderAt{In: bytes.NewReader(raw), HeaderLen: 60, Size: int64(len(raw)), Limit: len(raw)/60 + 1 + 8, Track: true}
+		cr := &core.CountingReaderAt{In: bytes.NewReader(raw), HeaderLen: 60, Size: int64(len(raw)), Limit: 4*(len(raw)/60+1) + 16, Track: true}
 		var src io.ReaderAt = cr
 		if sizedToggle = !sizedToggle; sizedToggle {
 			src = core.SizedCountingReaderAt{CountingReaderAt: cr}
 		}
 		d, err := deb.Load(src, "hostile.deb")
 		if cr.Exceeded && report {
-			c.Failf("Load did not finish within %d header reads for %d input bytes: header reads at %v", cr.Limit, len(raw), tailInts(cr.Headers, 8))
+			c.Failf("Load did not finish: more than %d header reads for %d input bytes (one step per 60 bytes allows %d): header reads at %v", cr.Limit, len(raw), len(raw)/60+1, tailInts(cr.Headers, 8))
 		}
 		if err == nil && d == nil && report {
 			c.Failf("Load returned nil, nil")
